@@ -180,7 +180,7 @@ def retarget(F, ob, cfg):
         if copy_at == i:
             original = al
             orig_state = {k_: K.snapshot(v) for k_, v in _state(al, cfg).items()}
-            orig_target = al.target
+            orig_target = K.snapshot(al.target.points)
             al = al.copy()
         al.set_target(T[i])
     fresh = _build(F, cfg, S, T[-1])
@@ -197,8 +197,6 @@ def retarget(F, ob, cfg):
             ob.true("option." + opt, getattr(al, opt, None) == getattr(fresh, opt))
     # nothing the caller passed was altered
     K.same_terms(F, ob, "source.unchanged", src_snap, al.source.points)
-    if copy_at is None and cfg["cls"] != "PWA" and cfg.get("via") is None:
-        ob.true("source.same_object", al.source is S)
     for i, t in enumerate(T):
         K.same_terms(F, ob, "passed_target%d.unchanged" % i, t_snaps[i], t.points)
     if cfg.get("via") == "pinv":
@@ -214,7 +212,7 @@ def retarget(F, ob, cfg):
     if original is not None:
         for name, v in _state(original, cfg).items():
             K.same_terms(F, ob, "original.state." + name, orig_state[name], v)
-        ob.true("original.target_kept", original.target is orig_target)
+        K.same_terms(F, ob, "original.target_kept", orig_target, original.target.points)
 
 
 def reject(F, ob, cfg):
